@@ -148,6 +148,29 @@ theorem returned_outputs_published (h : HCfg) (d : Delivery) (p : Nat) (r : Ref)
   unfold handleOne
   simp [ho, hp, Function.comp_def]
 
+/-- **every produced message keeps its own context**: when `Publish` gets the slice, the context of each element is
+    still (a child of) the context THAT object had when the chain returned it – the consumed message its own, every
+    other object the one it was created with – never another element's (so values, deadlines and cancellation the
+    function attached to one output stay with that output) -/
+theorem outputs_keep_own_context (h : HCfg) (d : Delivery) :
+    ∀ call ∈ (handleOne h d).calls, call.owners = call.items.map (fun it => some it.1) := by
+  intro call hcall
+  unfold handleOne at hcall
+  cases hp : produced h d.shape with
+  | none => simp [hp] at hcall
+  | some outs =>
+    cases outs with
+    | nil => simp [hp] at hcall
+    | cons r rs =>
+      cases hpub : h.pub with
+      | none => simp [hp, hpub] at hcall
+      | some p =>
+        simp [hp, hpub] at hcall
+        subst hcall
+        have key : ∀ x : Ref, (addHandlerContextM h (baseCtx ⟨some .consumed, addHandlerContext h d.ctx⟩ x)).owner = some x := by
+          intro x; cases x <;> rfl
+        simp [contextualise, key, Function.comp_def]
+
 /-- something is published exactly when the handler has a publisher and the chain returned at least one message -/
 theorem published_iff (h : HCfg) (d : Delivery) :
     (handleOne h d).calls ≠ [] ↔ ∃ p r rs, h.pub = some p ∧ produced h d.shape = some (r :: rs) := by
@@ -171,7 +194,8 @@ example : (handleOne ⟨"np", 1, "in", "S", none, "", "message.disabledPublisher
     = ⟨7, "np", ⟨"np", "message.disabledPublisher", "S", "in", ""⟩, .nack, []⟩ := by decide
 example : (handleOne ⟨"h", 1, "in", "S", some 3, "out", "P", 1, false⟩ ⟨1, "in", 7, .outs [.fresh 0, .consumed, .fresh 0], [], .cancelledDuring⟩).calls
     = [⟨3, "out", [(.fresh 0, ⟨"h", "P", "S", "in", "out"⟩), (.consumed, ⟨"h", "P", "S", "in", "out"⟩),
-                   (.fresh 0, ⟨"h", "P", "S", "in", "out"⟩), (.mw 0, ⟨"h", "P", "S", "in", "out"⟩)]⟩] := by decide
+                   (.fresh 0, ⟨"h", "P", "S", "in", "out"⟩), (.mw 0, ⟨"h", "P", "S", "in", "out"⟩)],
+        [some (.fresh 0), some .consumed, some (.fresh 0), some (.mw 0)]⟩] := by decide
 
 /-! ### the router -/
 
@@ -240,5 +264,81 @@ example :
     (resultsOf "a" (route [c, b, a] script)).map (fun r => (r.mid, r.fn, r.settle, r.calls.length)) = [(1, "a", .ack, 1)] ∧
     (resultsOf "c" (route [c, b, a] script)).map (fun r => (r.mid, r.fn, r.settle, r.calls.length)) = [(2, "c", .nack, 0)] := by
   decide
+
+/-! ### RunHandlers as an operation: handlers added to a running router, decorators applied exactly once -/
+
+/-- a started handler is not touched by any later operation (`if h.started { continue }`) -/
+theorem rstep_keeps_started (s : RSt) (o : ROp) (x : RH) (hx : x ∈ s.hs) (hs : x.started = true) :
+    x ∈ (rstep s o).hs := by
+  cases o with
+  | addHandler h => exact List.mem_append_left _ hx
+  | pubDec i => exact hx
+  | subDec i => exact hx
+  | runHandlers => exact List.mem_map.mpr ⟨x, hx, by simp [startRH, hs]⟩
+
+theorem rexec_keeps_started (s : RSt) (ops : List ROp) (x : RH) (hx : x ∈ s.hs) (hs : x.started = true) :
+    x ∈ (rexec s ops).hs := by
+  induction ops generalizing s with
+  | nil => exact hx
+  | cons o rest ih => exact ih (rstep s o) (rstep_keeps_started s o x hx hs)
+
+/-- **RunHandlers is idempotent**: calling it again (as often as one likes) changes nothing -/
+theorem runHandlers_idempotent (s : RSt) : rstep (rstep s .runHandlers) .runHandlers = rstep s .runHandlers := by
+  simp only [rstep, List.map_map]
+  congr 1
+  apply List.map_congr_left
+  intro h _
+  by_cases hs : h.started = true <;> simp [startRH, hs]
+
+/-- **each decorator exactly once per handler**: for every program `pre ++ runHandlers :: post` – any interleaving of
+    AddHandler, decorator registrations and earlier / later RunHandlers calls – a handler that is added and not yet
+    started when that call happens is from then on, whatever `post` does (more handlers, more decorators, RunHandlers
+    again and again), wrapped by exactly the publisher decorators registered in `pre`, each once, first added first on
+    the way out, and exactly the subscriber decorators of `pre`, each once, first added first on the way in. -/
+theorem decorated_exactly_once (pre post : List ROp) (x : RH)
+    (hx : x ∈ (rexec {} pre).hs) (hns : x.started = false) (hp : x.pubPath = []) (hsp : x.subPath = []) :
+    (⟨x.cfg, true, (rexec {} pre).pd, (rexec {} pre).sd⟩ : RH) ∈ (rexec {} (pre ++ .runHandlers :: post)).hs := by
+  have h1 : rexec {} (pre ++ .runHandlers :: post) = rexec (rstep (rexec {} pre) .runHandlers) post := by
+    simp [rexec, List.foldl_append]
+  rw [h1]
+  apply rexec_keeps_started _ post _ _ rfl
+  refine List.mem_map.mpr ⟨x, hx, ?_⟩
+  cases x
+  simp_all [startRH]
+
+/-- a handler never gets a non-empty path before it is started (so the side conditions of `decorated_exactly_once`
+    hold for every not yet started handler of every reachable state) -/
+theorem unstarted_undecorated (ops : List ROp) :
+    ∀ x ∈ (rexec {} ops).hs, x.started = false → x.pubPath = [] ∧ x.subPath = [] := by
+  suffices h : ∀ (s : RSt), (∀ x ∈ s.hs, x.started = false → x.pubPath = [] ∧ x.subPath = []) →
+      ∀ x ∈ (rexec s ops).hs, x.started = false → x.pubPath = [] ∧ x.subPath = [] from
+    h {} (by intro x hx; cases hx)
+  induction ops with
+  | nil => intro s hs; exact hs
+  | cons o rest ih =>
+    intro s hs
+    apply ih (rstep s o)
+    intro x hx hst
+    cases o with
+    | addHandler h =>
+      rcases List.mem_append.mp hx with h1 | h1
+      · exact hs x h1 hst
+      · simp at h1; subst h1; exact ⟨rfl, rfl⟩
+    | pubDec i => exact hs x hx hst
+    | subDec i => exact hs x hx hst
+    | runHandlers =>
+      rcases List.mem_map.mp hx with ⟨y, hy, rfl⟩
+      by_cases hys : y.started = true
+      · simp [startRH, hys] at hst
+      · simp [startRH, hys] at hst
+
+/-- non-vacuity: decorator 7, handler a, Run; decorator 8 and handler b added to the running router, RunHandlers three
+    times: a keeps [7], b gets [7, 8] once -/
+example :
+    let a : HCfg := ⟨"a", 1, "t", "S", some 1, "oa", "P", 0, false⟩
+    let b : HCfg := ⟨"b", 1, "t", "S", some 1, "ob", "P", 0, false⟩
+    ((rexec {} [.pubDec 7, .subDec 3, .addHandler a, .runHandlers, .pubDec 8, .addHandler b,
+                .runHandlers, .runHandlers, .runHandlers]).hs.map fun h => (h.cfg.name, h.pubPath, h.subPath)) =
+      [("a", [7], [3]), ("b", [7, 8], [3])] := by decide
 
 end Wm.Route
